@@ -18,7 +18,7 @@ RULE = ("operation sequences over {push k, pop, peek, decrease(i-th live item: b
 ASSUMPTIONS = ["pop/peek on an empty heap are not driven (the property speaks of live items)",
                "remove() and decrease_key() are only called with nodes that are live members, as their docstrings require",
                "reference = sorted-list model in gv/props/c16.py"]
-MINIMUMS = {"quick": {"invariant_evaluations": 100000, "pops_judged": 50000, "decrease_ops": 20000, "remove_ops": 20000},
+MINIMUMS = {"quick": {"invariant_evaluations": 100000, "pops_judged": 50000, "decrease_ops": 20000, "remove_ops": 20000, "helper_calls": 4000},
             "thorough": {"invariant_evaluations": 2000000, "pops_judged": 1000000, "decrease_ops": 400000, "remove_ops": 400000}}
 
 KINDS = ["min-keyfn", "min-plain", "max", "max-keyfn"]
@@ -128,6 +128,8 @@ def plan(tier, seed):
     ns, per = (8, 700) if tier == "quick" else (16, 12000)
     for k in range(ns):
         specs.append({"stratum": "sampled-long", "n": per, "k": k})
+    for k in range(2 if tier == "quick" else 8):
+        specs.append({"stratum": "helpers-smallest-largest", "n": 4000 if tier == "quick" else 40000, "k": k, "helpers": True})
     return specs
 
 
@@ -152,6 +154,15 @@ def _live_after(live, op):
 
 def gen_cases(spec, ctx):
     kind = spec.get("kind")
+    if spec.get("helpers"):
+        r = ctx.rng
+        for _ in range(spec["n"]):
+            m = r.choice([0, 1, 2, 3, 5, 8, 13])
+            pool = r.choice([3, 5, 100])
+            xs = [r.randrange(pool) for _ in range(m)]
+            yield {"kind": "helper", "fn": r.choice(["smallest", "largest"]), "xs": xs, "n": r.choice([0, 1, 2, 3, m, m + 2]),
+                   "key": r.choice([None, "neg", "mod3"]), "call": r.choice(["iterable", "varargs"])}
+        return
     if spec.get("exhaustive"):
         prefix = spec["prefix"]
         live = 0
@@ -309,7 +320,37 @@ def run_ops(kind, ops, ctx=None):
     return {"interesting": interesting}
 
 
+def check_helper(case, ctx):
+    """utils.smallest / utils.largest are built on the heaps: n smallest / largest items by key, as a multiset."""
+    from graphtage import utils
+    import collections
+    xs, n = case["xs"], case["n"]
+    keyf = {None: None, "neg": (lambda v: -v), "mod3": (lambda v: v % 3)}[case["key"]]
+    fn = getattr(utils, case["fn"])
+    if case["call"] == "varargs" and len(xs) >= 2:
+        got = list(fn(*xs, n=n, key=keyf))
+    else:
+        got = list(fn(xs, n=n, key=keyf))
+    k = keyf or (lambda v: v)
+    ordered = sorted(xs, key=k, reverse=case["fn"] == "largest")
+    want = ordered[:n]
+    if ctx is not None:
+        ctx.count("helper_calls")
+        ctx.seen(case, nontrivial=len(xs) > n > 0)
+    # ties may be broken either way: compare the multisets of keys, and membership
+    if collections.Counter(map(k, got)) != collections.Counter(map(k, want)) or (collections.Counter(got) - collections.Counter(xs)):
+        return [{"kind": "helper-wrong-selection", "fn": case["fn"], "got": got, "want_keys": [k(v) for v in want]}]
+    return []
+
+
 def check(case, ctx):
+    if case.get("kind") == "helper":
+        try:
+            return check_helper(case, ctx)
+        except InvariantBroken as ex:
+            return [{"kind": "invariant", "msg": str(ex)[:300]}]
+        except Exception as ex:  # noqa
+            return [core.exc_diag("exception", ex)]
     before = _INV["n"]
     try:
         res = run_ops(case["kind"], case["ops"], ctx)
@@ -331,6 +372,13 @@ def classify(case, diag):
 
 
 def shrink_candidates(case):
+    if case.get("kind") == "helper":
+        xs = case["xs"]
+        for i in range(len(xs)):
+            c = dict(case)
+            c["xs"] = xs[:i] + xs[i + 1:]
+            yield c
+        return
     ops = case["ops"]
     for i in range(len(ops)):
         yield {"kind": case["kind"], "ops": ops[:i] + ops[i + 1:]}
